@@ -396,7 +396,23 @@ pub fn families(tier: Tier, _variant: &str) -> Vec<Family> {
             check_typed_bytes::<Vec<serde_bytes::ByteBuf>>(ctx, "Vec<ByteBuf>", &cat(&[b"[\"", &body, b"\",\"", &body, b"\"]"]));
             check_typed_bytes::<BufAndText>(ctx, "struct{b:ByteBuf,c:String}", &cat(&[b"{\"b\":\"", &body, b"\",\"c\":\"t\\tt\"}"]));
             check_typed_bytes::<(String, serde_bytes::ByteBuf, String)>(ctx, "(String,ByteBuf,String)", &cat(&[b"[\"a\\tb\",\"", &body, b"\",\"z\"]"]));
+            check_typed_bytes::<(serde_bytes::ByteBuf, String, serde_bytes::ByteBuf)>(ctx, "(ByteBuf,String,ByteBuf)", &cat(&[b"[\"", &body, b"\",\"plain\",\"", &body, b"\"]"]));
             ctx.nontrivial();
+        }));
+    }
+    // every short N10 string in positions whose value is ignored (unknown field, IgnoredAny)
+    {
+        let k = gen::N10.len() as u64;
+        let l = if q { 5 } else { 6 };
+        v.push(Family::new("n10-in-ignored-positions", gen::seq_count(k, l), move |idx, ctx| {
+            let mut seq = vec![];
+            gen::nth_seq(k, l, idx, &mut seq);
+            let mut d = vec![];
+            gen::concat(gen::N10, &seq, &mut d);
+            let lit = String::from_utf8(d).unwrap();
+            check_typed::<crate::types::Plain>(ctx, &format!("{{\"a\":7,\"zz\":{lit},\"b\":\"s\"}}"));
+            check_typed::<crate::types::Plain>(ctx, &format!("{{\"a\":7,\"b\":\"s\",\"zz\":[{lit},{{\"k\":{lit}}}]}}"));
+            check_typed::<crate::types::UnitStruct>(ctx, &format!("[{lit}]"));
         }));
     }
     // numbers: the N10 space into every numeric type is C07; here quoted numbers as map keys
